@@ -31,7 +31,9 @@ RULE = ('(generated) Hypothesis draws a class model with automatic recognition '
         'distinct (model, text)')
 ASSUMPTIONS = [
     'documents have distinct scalar mapping keys, no aliases, no merge keys, '
-    'no explicit non-core tags (those belong to C03/C04/C08/C18); others are '
+    'no explicit non-core tags (those belong to C03/C04/C08/C18) except one '
+    'tagged object of a registered class placed below an unknown key (src '
+    '+tagged_extra: plain data in _yatiml_extra, or a rejection); others are '
     'counted and skipped',
     'scalars are parsed by PyYAML\'s SafeConstructor in the reference (what '
     'resolves to what is C09\'s property)',
@@ -48,7 +50,18 @@ FEATS = ('hier', 'abstract', 'unreg', 'extra', 'enum', 'strlike', 'any',
 def cases(draw):
     spec = draw(gen.models(FEATS))
     t, origin = draw(gen.doc_for(spec, tags=False, hard=draw(st.booleans())))
-    return {'model': spec, 'text': T.render_flow(t), 'src': origin.split(':')[0]}
+    src = origin.split(':')[0]
+    if draw(st.integers(0, 5)) == 0:
+        # "extra attributes arrive as plain data": a tagged object of a
+        # registered class (also nested in untagged collections) below an
+        # unknown key - plain data where the class takes _yatiml_extra,
+        # a rejection where it does not
+        from yv.props import c04
+        t2 = c04.tagged_object_below_unknown_key(draw, spec, t)
+        if t2 is not None:
+            return {'model': spec, 'text': T.render_flow(t2), 'src': src + '+tagged_extra',
+                    'tags_ok': True}
+    return {'model': spec, 'text': T.render_flow(t), 'src': src}
 
 
 def has_instance(v):
@@ -62,7 +75,7 @@ def has_instance(v):
     return False
 
 
-def in_domain(node):
+def in_domain(node, tags_ok=False):
     """No explicit non-core tags, scalar distinct keys, no aliases."""
     seen = set()
 
@@ -70,7 +83,7 @@ def in_domain(node):
         if id(n) in seen:
             return 'alias'
         seen.add(id(n))
-        if not n.tag.startswith('tag:yaml.org,2002:'):
+        if not n.tag.startswith('tag:yaml.org,2002:') and not tags_ok:
             return 'noncore_tag'
         if isinstance(n, yaml.SequenceNode):
             for i in n.value:
@@ -94,7 +107,7 @@ def in_domain(node):
     return go(node)
 
 
-def compare(spec, text, ctx, label):
+def compare(spec, text, ctx, label, tags_ok=False):
     m = models.build(spec)
     try:
         node = T.compose_raw(text)
@@ -102,7 +115,7 @@ def compare(spec, text, ctx, label):
         ctx.count('unparseable')
         return
     if node is not None:
-        bad = in_domain(node)
+        bad = in_domain(node, tags_ok)
         if bad:
             ctx.count('out_of_domain_' + bad)
             return
@@ -176,7 +189,7 @@ def check(case, ctx):
         compare(spec, case['text'], ctx, 'enum')
         return
     ctx.count('src_' + case.get('src', '?'))
-    compare(case['model'], case['text'], ctx, 'gen')
+    compare(case['model'], case['text'], ctx, 'gen', bool(case.get('tags_ok')))
 
 
 # ---------------------------------------------------------------------------
